@@ -62,7 +62,6 @@ def build_tools():
     if os.path.exists(out) and os.path.getmtime(out) >= newest:
         return
     env = goenv()
-    env["GOFLAGS"] = ""
     env["GOTOOLCHAIN"] = "local"
     p = subprocess.run(["go", "build", "-o", out, "."], cwd=src, env=env,
                        stdout=subprocess.PIPE, stderr=subprocess.STDOUT, text=True)
